@@ -460,6 +460,21 @@ func anyZeroDuration(e parser.Expr) bool {
 	return false
 }
 
+// lexObs: the model's `tokOk` must hold for every token the real lexer produced, except a duration that
+// parseDuration accepts and rounds to 0 seconds (known finding zero-duration)
+func lexObs(h *verifx.H, toks []token) {
+	for _, t := range toks {
+		if t.name == "DURATION" {
+			if d, err := parser.VerifParseDuration(t.text); err == nil && d == 0 {
+				h.Obs("lex 0")
+				h.Stat("lex.zero-duration", 1)
+				return
+			}
+		}
+	}
+	h.Obs("lex 1")
+}
+
 func wfObs(h *verifx.H, e parser.Expr) {
 	if anyZeroDuration(e) {
 		h.Obs("wf 0")
@@ -1254,6 +1269,7 @@ func runCase(h *verifx.H, src string) {
 	}
 	r, ok := checkParse(h, src, "generated")
 	h.Op("parse %s", renderFull(toks))
+	lexObs(h, toks)
 	if !ok {
 		h.Obs("panic")
 		return
@@ -1303,6 +1319,7 @@ func runCase(h *verifx.H, src string) {
 	// parse the printed text
 	r2, ok2 := checkParse(h, printed, "printed")
 	h.Op("parse %s", renderFull(ptoks))
+	lexObs(h, ptoks)
 	switch {
 	case !ok2:
 		h.Obs("panic")
